@@ -151,10 +151,6 @@ func renderSteps(a core.Ammo) string {
 	default:
 		return "?"
 	}
-	// round 6: a scenario of more than 5000 steps (repeat counts near MaxScenarioRequests) is rendered by its length
-	if len(parts) > 5000 {
-		return fmt.Sprintf("#%d", len(parts))
-	}
 	return strings.Join(parts, ",")
 }
 
